@@ -978,8 +978,24 @@ def rule_process_state(ctx) -> None:
               f"{n_fn} functions of {len(mods)} modules: {n_bad} mutable default arguments / class-level containers edited in place / nested module templates handed out by shallow copy; " + hazards.controls(ctx, "clematis.engine.health", ["state", "template"]))
 
 
+def rule_process_global_cache_keyed_by_its_inputs(ctx) -> None:
+    """"the outcome does not depend on the process": the T1 result cache is process-global and content-keyed, so what a turn gets
+    from it was possibly computed by ANOTHER run in the same process.  That is reproducible only if the key names everything the
+    cached propagation depends on (C05's free-variable containment for the T1 key, run here as a C01 obligation): a knob that
+    steers the propagation but is missing from the key (a new cutoff `t1.epsilon`) makes a default-config replay in a warm
+    process return what an earlier run computed under another value."""
+    from .c05 import rule_key_t1
+    before = len(ctx.results)
+    rule_key_t1(ctx)
+    for r in ctx.results[before:]:
+        if r.rule == "C05.KEY":
+            r.rule = "C01.HIST"
+            r.key = "t1-cache-key:" + r.key
+
+
 def run(ctx) -> None:
     _REPORTED.clear()
+    rule_process_global_cache_keyed_by_its_inputs(ctx)
     rule_process_state(ctx)
     rule_cache_clock(ctx)
     rule_clock_fallback(ctx)
